@@ -109,7 +109,8 @@ def run_tlc(module, cfg_text, *, extra_files=None, workers=1, simulate=None, dep
                     fh.write(content)
         with open(os.path.join(d, module + ".cfg"), "w") as fh:
             fh.write(cfg_text)
-        cmd = ["java", "-Xss1g", "-XX:+UseParallelGC"]
+        os.makedirs(os.path.join(d, "jtmp"), exist_ok=True)
+        cmd = ["java", "-Xss1g", "-XX:+UseParallelGC", "-Djava.io.tmpdir=" + os.path.join(d, "jtmp")]
         if heap:
             cmd.append("-Xmx" + heap)
         if dfs:
